@@ -154,6 +154,16 @@ def run(ctx):
         "quiescence is read from the runtime's goroutine dump (all process goroutines parked twice in a row)",
         "sync.RWMutex semantics (go mode) is only used to predict; verdicts use the general rw-lock semantics",
     ]
+    # Root model (spec/sys/Zoekt.tla): the index directory's life cycle (index runs, merge, cleanup as
+    # sequences of file-system steps) under the mutex.  With the mutex no repository is visible twice
+    # and indexed assigned repositories stay visible; without it TLC must find the race (vacuity guard).
+    zk = {"UseMutex": "TRUE", "MaxOps": ctx.pick(4, 5)}
+    ctx.model_check("Zoekt", "Zoekt_mc.cfg", defines=zk, timeout=3000, workers=4)
+    if ctx.thorough:
+        bad = ctx.tlc("Zoekt", "Zoekt_mc.cfg", count=False, defines={"UseMutex": "FALSE", "MaxOps": 4}, timeout=3000, workers=4)
+        if bad.ok or not bad.invariant:
+            raise vk.Inconclusive("Zoekt.tla without the index mutex no longer violates its invariants: the composition is vacuous")
+
     return ctx.finish(
         evaluations=len(events), distinct_nontrivial=nontrivial,
         rule="schedules = one per transition of the macro machine of IndexMutex.tla (command history of the state + "
